@@ -232,6 +232,25 @@ fn judge_literal(body: &str, ctxn: usize) -> Vec<Failure> {
     vec![]
 }
 
+/// two-site variants: a case flip at one token combined with a separator / comment change at one boundary
+fn variants2(stmt: &str) -> Vec<(String, String)> {
+    let toks = corpus_tokens(stmt);
+    let mut out = Vec::new();
+    let ci_idx: Vec<usize> = toks.iter().enumerate().filter(|(_, t)| is_ci(t)).map(|(i, _)| i).collect();
+    for &i in &ci_idx {
+        let flipped = if toks[i].chars().any(|c| c.is_lowercase()) { toks[i].to_uppercase() } else { toks[i].to_lowercase() };
+        for bnd in 0..toks.len().saturating_sub(1) {
+            for (name, sep) in [("lf", "\n"), ("comment", " -- x\n"), ("tab", "\t")] {
+                let mut v = toks.clone();
+                v[i] = flipped.clone();
+                let text = format!("{}{}{}", v[..=bnd].join(" "), sep, v[bnd + 1..].join(" "));
+                out.push((format!("two-site:case+{}", name), text));
+            }
+        }
+    }
+    out
+}
+
 pub fn run(ctx: &Ctx) -> i32 {
     let col = Collector::new();
     let corpus = statement_corpus();
@@ -239,6 +258,11 @@ pub fn run(ctx: &Ctx) -> i32 {
     for (i, s) in corpus.iter().enumerate() {
         for (k, v) in variants(s) {
             all.push((i, k, v));
+        }
+        if ctx.tier == Tier::Thorough {
+            for (k, v) in variants2(s) {
+                all.push((i, k, v));
+            }
         }
     }
     let total = all.len() as u64;
